@@ -2,6 +2,7 @@
 import numpy as np
 from hypothesis import strategies as st
 
+from harness import buffers
 from harness.core import SubCheck, Violation, HarnessError
 from harness.oracle import kkt
 
@@ -113,6 +114,7 @@ def general_case(draw):
         "callback": draw(st.sampled_from([False, False, True])),
         "tols": draw(st.sampled_from([None, None, [1e-6, 1e-4], [1e-8, 1e-8], [1e-4, 1e-6]])),
         "max_iterations": draw(st.sampled_from([None, 400, 150])),
+        "reuse_buffers": draw(st.booleans()),
     }
 
 
@@ -124,7 +126,7 @@ def unconditional_case(draw):
         "N": N, "W": W, "kind": "wellcond", "seed": draw(st.integers(0, 2 ** 32 - 1)), "scale": 1.0,
         "extra": 0.0, "lam_form": draw(st.sampled_from(["scalar", "const_matrix", "random_matrix"])),
         "lam_value": draw(st.one_of(st.just(0.0), st.just(1.0), st.floats(0.0, 1.0))),
-        "rho": 1.0, "callback": False, "tols": None, "unconditional": True,
+        "rho": 1.0, "callback": False, "tols": None, "unconditional": True, "reuse_buffers": draw(st.booleans()),
     }
 
 
@@ -135,6 +137,12 @@ def execute(case, t):
     n = N * W
     S = make_cov(case["kind"], N, W, case["seed"], case["scale"], case["extra"])
     lam = make_lambda(case["lam_form"], case["lam_value"], n, case["seed"])
+    if case.get("reuse_buffers"):
+        # the caller keeps one covariance / one weight array and refills it between solves (what a sweep does)
+        S = buffers.reuse("C02.S", S)
+        if isinstance(lam, np.ndarray):
+            lam = buffers.reuse("C02.lam", lam)
+        t.cls("caller_buffers_reused")
     S0 = S.copy()
     lam0 = lam.copy() if isinstance(lam, np.ndarray) else lam
     events = []
